@@ -233,11 +233,12 @@ def scen_predicate(ctx, M):
             op = ctx.choice('opc_%d' % i, OPS)
             piece = op + ctx.choice('sp_%d' % i, ['', ' ']) + 'P%d' % i
         else:
-            w1 = ctx.str('w1_%d' % i, ctx.choice('nw1_%d' % i, [0, 1]), WS)
+            nws = [0, 1] if ctx.p.get('ws', True) else [0]
+            w1 = ctx.str('w1_%d' % i, ctx.choice('nw1_%d' % i, nws), WS)
             oplen = ctx.choice('oplen_%d' % i, [1, 2])
             op = ctx.str('op_%d' % i, oplen, OPC)
-            w2 = ctx.str('w2_%d' % i, ctx.choice('nw2_%d' % i, [0, 1]), WS)
-            w3 = ctx.str('w3_%d' % i, ctx.choice('nw3_%d' % i, [0, 1]), WS)
+            w2 = ctx.str('w2_%d' % i, ctx.choice('nw2_%d' % i, nws), WS)
+            w3 = ctx.str('w3_%d' % i, ctx.choice('nw3_%d' % i, nws), WS)
             piece = cat(w1, op, w2, 'P%d' % i, w3)
         ops.append(op)
         if i:
